@@ -65,7 +65,7 @@ type Sched struct {
 	bgByName map[string]*SchedTask
 	locks    map[string]*lockModel
 	Trace    []string
-	Script   []string // replay: the recorded schedule to follow
+	Script   []string   // replay: the recorded schedule to follow
 	RP       *rand.Rand // listing orders (map iteration) have a stream of their own
 	Viol     *Violation
 	Prop     string
@@ -390,16 +390,7 @@ func (s *Sched) Run() {
 		defer s.mu.Unlock()
 		return s.RP.Perm(n)
 	}
-	prevID := zzsimrt.IDHook
-	zzsimrt.IDHook = func(orig string) string {
-		s.mu.Lock()
-		defer s.mu.Unlock()
-		s.w.simIDs++
-		return fmt.Sprintf("sim%017d", s.w.simIDs)
-	}
-	defer func() {
-		zzsimrt.LockHook, zzsimrt.YieldHook, zzsimrt.PermHook, zzsimrt.IDHook = prevLock, prevYield, prevPerm, prevID
-	}()
+	defer func() { zzsimrt.LockHook, zzsimrt.YieldHook, zzsimrt.PermHook = prevLock, prevYield, prevPerm }()
 	idle := 0
 	for s.stepNo = 0; s.stepNo < s.maxStep; s.stepNo++ {
 		synctest.Wait()
